@@ -35,8 +35,10 @@ def _run(ctx, env):
         "the directory of the log file is a partial map index -> bytes (0 = path, i = path-i); os.Rename/Remove/"
         "Stat/OpenFile(O_APPEND|O_CREATE)/MkdirAll succeed (only `not exist` errors occur, and are ignored as in the "
         "code); Write returns (len(b), nil)",
-        "WithMask and DefaultPath (file modes, location of the per-user log directory) are outside the model; the "
-        "harness always passes Path(...)",
+        "WithMask is an option without effect on the directory model (file modes are not in the property text and are not "
+        "compared); without a Path option the rotator is only constructed (PathToLog() = DefaultPath()), never written",
+        "MaxSize/MaxBackups take signed integers; negative values are configured into the model as 0 "
+        "(C12.negative_limits_act_as_zero) and exercised (-1, MinInt64) like the huge ones (MaxInt64 and neighbours)",
     ]
     ctx.assumptions += [
         "atomicity of Write/Close/Sync under concurrency is taken from the sync.Mutex held for the whole method: the "
@@ -45,16 +47,16 @@ def _run(ctx, env):
         "every retained file must parse into whole records and the retained stream must be a per-writer suffix), "
         "also under the race detector",
         "no other process modifies the log directory between operations; file system calls do not fail (disk full, "
-        "permissions) — error paths of Write/rotate are not modelled",
-        "MaxSize >= 0 and MaxBackups >= 0 (naturals in the model; the property quantifies over MaxSize >= 1, "
-        "MaxBackups >= 0)",
+        "permissions) in the model — error paths of Write/rotate are exercised by the `errs` implementation oracle only",
+        "the cost of one rotation is linear in MaxBackups (one rename attempt per slot): MaxBackups is exercised up to "
+        "100; astronomically large values (math.MaxInt) make a rotating Write run for that many iterations",
     ]
     ctx.lean(props=["Props.C12"], drivers=["drv_c12"])
     marks["lean_s"] = round(time.time() - t0, 1)
     ctx.harness("./cmd/c12")
     marks["harness_s"] = round(time.time() - t0, 1)
     ctx.extra["phase_times"] = marks
-    ctx.diff(area="rot", driver="drv_c12", n={"quick": 160000, "thorough": 6000000}, stateful=True,
+    ctx.diff(area="rot", driver="drv_c12", n={"quick": 90000, "thorough": 6000000}, stateful=True,
              trivial=lambda l, o: o in ("norot", "sync=nil", "nopath", "new=err"),
              tagger=_tag, extra_env=env,
              theorem="C12.write_terminates / write_whole / retained_is_suffix / size_bound / backup_count / "
@@ -66,12 +68,17 @@ def _run(ctx, env):
     marks["diff_s"] = round(time.time() - t0, 1)
     if ctx.violations:
         return  # the sequential behaviour is already refuted; the stress runs would only wait for hung writers
-    ctx.impl_oracle("stress", {"quick": 24, "thorough": 400}, extra_env=env,
+    ctx.impl_oracle("errs", {"quick": 40, "thorough": 2000}, extra_env=env,
+                    label="resource failures (directory is a file, path is a directory, oldest backup slot is a "
+                          "non-empty directory, read-only directory): Write returns n=0 and an error, never hangs, "
+                          "changes nothing on disk, and the same Rotator works again once the obstacle is gone")
+    marks["errs_s"] = round(time.time() - t0, 1)
+    ctx.impl_oracle("stress", {"quick": 36, "thorough": 400}, extra_env=env,
                     label="concurrent writers: whole records, per-writer suffix, size and backup bounds")
     marks["stress_s"] = round(time.time() - t0, 1)
     if ctx.harness("./cmd/c12", name="race", race=True):
         marks["racebuild_s"] = round(time.time() - t0, 1)
-        ctx.impl_oracle("stress", {"quick": 6, "thorough": 120}, name="race",
+        ctx.impl_oracle("stress", {"quick": 9, "thorough": 120}, name="race",
                         extra_env=dict(env, GORACE="halt_on_error=1 exitcode=66"),
                         label="the same under the race detector (a reported race kills the harness)")
     marks["end_s"] = round(time.time() - t0, 1)
